@@ -20,12 +20,13 @@ RULE = ("case = (library spec of 0-6 blocks over entries with 0-5 fields and key
         "and an entry with >= 2 fields; distinct = distinct (library, format)")
 ASSUMPTIONS = ["a custom parsing_failed_comment uses at most the documented {n} placeholder", "field values are str (the writer is specified for enclosed text values)"]
 MIN = {"separator": (20000, 400000), "field_layout": (20000, 400000), "auto_align": (2000, 40000), "failed_render": (3000, 60000),
-       "format_unchanged": (20000, 400000), "custom_failed_comment": (1000, 20000), "key_longer_than_column": (2000, 40000), "reused_format_object": (10000, 200000)}
+       "format_unchanged": (20000, 400000), "custom_failed_comment": (1000, 20000), "key_longer_than_column": (2000, 40000), "reused_format_object": (10000, 200000), "format_unchanged_after_raise": (300, 6000)}
 
 _SHARED = {}
 INDENTS = ["", " ", "\t", "    "]
 SEPS = ["", "\n", "\n\n", "\n-----\n", "§", "\r\n", " "]
 FCOMMENTS = [None, "% custom {n}", "%% no placeholder", "% WARNING {n} {n}"]
+BAD_COMMENT = "% {lines} lines could not be parsed"     # an unknown placeholder: rendering a failed block raises KeyError
 KEYS = ["a", "ab", "year", "author", "title", "booktitle", "k" * 12, "x" * 25, "é", "a-b", "UPPER", "ID", "ENTRYTYPE", "y" * 300, "0"]
 VALUES = ["{v}", '"q"', "{multi\nline}", "12", "{a {b} c}", "ident", '{x} # "y"', "{}", '""', "{ trailing }", "0", "{" + "long " * 80 + "}"]
 
@@ -97,6 +98,18 @@ def check(case, ctx):
         F.parsing_failed_comment = fs[4] if fs[4] is not None else "% WARNING Parsing failed for the following {n} lines."
         ctx.mon("reused_format_object")
     before = dict(vars(F))
+    has_failed = any(s[0] in ("failed", "dupkey", "dupfield") for s in specs)
+    if ctx.cases % 40 == 0 and has_failed:
+        # exception path: a write that raises must leave the caller's format object as it was, too
+        F.parsing_failed_comment = BAD_COMMENT
+        before = dict(vars(F))
+        st, text = sp.escape(lambda: writer.write(lib, F))
+        ctx.ran()
+        ctx.mon("format_unchanged_after_raise")
+        if dict(vars(F)) != before:
+            return [Violation("format-mutated", "C06:format-mutated:after-raising-write", dict(before={k: repr(v) for k, v in before.items()},
+                                                                                              after={k: repr(v) for k, v in vars(F).items()}, case=case))]
+        return []
     st, text = sp.escape(lambda: writer.write(lib, F))
     ctx.ran()
     if st == "raise":
